@@ -49,6 +49,11 @@ PARTIAL_CALLS = {
     "std::string::String::remove": "index",
     "std::string::String::insert": "index",
     "std::string::String::split_off": "index",
+    "std::string::String::truncate": "panics when the new length is not on a char boundary",
+    "std::string::String::insert_str": "index",
+    "std::string::String::drain": "range not on char boundaries",
+    "std::string::String::replace_range": "range not on char boundaries",
+    "core::str::<impl str>::split_at_mut": "index",
     "core::str::<impl str>::split_at": "index",
     "std::time::Instant::duration_since": None,
     "std::process::exit": "terminates the process",
